@@ -16,6 +16,14 @@ def main():
     print('file', res['path'], 'wall', res['wall_s'], 'verified', c['verified'], 'errors', c['errors'])
     for i in c['infra']: print('INFRA', i)
     for l in u.lost: print('LOST', l)
+    try:
+        sys.path.insert(0, os.path.join(os.path.dirname(os.path.abspath(__file__)), '..', 'bin'))
+        import importlib.machinery, importlib.util
+        ld = importlib.machinery.SourceFileLoader('vcheck', os.path.join(os.path.dirname(os.path.abspath(__file__)), '..', 'bin', 'check'))
+        spec = importlib.util.spec_from_loader('vcheck', ld); mod = importlib.util.module_from_spec(spec); ld.exec_module(mod)
+        for pr in mod.assumption_scan(u): print('INFRA(scan)', pr)
+    except Exception as e:
+        print('scan unavailable', e)
     for ob, rs in c['failed'].items():
         tag = 'expected' if ob in u.expected_fail else 'FAIL'
         print(tag, ob)
